@@ -228,6 +228,29 @@ func c07Mutants(p *c07Prog, s *c07Site, lines []string) []c07Mutant {
 		if t.kind == 'm' {
 			value("array-vs-map", c07Arr(c07Witness(t.elem)), t)
 		}
+		// every element is checked on its own: a wrong element AFTER valid ones (for an int element also a
+		// fractional float after an integral one - the same kind of literal)
+		if t.kind == 'a' {
+			w := c07Witness(t.elem)
+			value("later-element-wrong", c07Arr(w, w, c07WrongScalar(t.elem, false)), t)
+			value("later-element-wrong", c07Arr(w, c07WrongScalar(t.elem, true), w), t)
+			inner := t.elem
+			wrapRow := func(e *c07Exp) *c07Exp { return e }
+			for inner.kind == 'a' {
+				prev := wrapRow
+				wi := c07Witness(inner)
+				wrapRow = func(e *c07Exp) *c07Exp { return prev(c07Arr(wi, e)) }
+				inner = inner.elem
+			}
+			if inner.kind == 'b' && inner.name == "int" {
+				for _, f := range c07Floats {
+					if f.text == "1.5" {
+						value("later-element-fractional", wrapRow(c07Arr(c07Flo(c07Floats[2]), c07Flo(f))), t) // [3.0, 1.5]
+						value("later-element-fractional", wrapRow(c07Arr(c07Int(1), c07Flo(c07Floats[4]), c07Flo(f), c07Int(2))), t)
+					}
+				}
+			}
+		}
 		// struct literals (also below arrays / maps)
 		wrap := func(e *c07Exp) *c07Exp { return e }
 		st := t
